@@ -438,6 +438,37 @@ def F28():
         return False, "65-byte string 02||00*32||Gx rejected (%s)" % e
     return True, "65-byte string 02||00*32||Gx accepted as %s" % pt.sec().hex()[:18]
 
+def F29():
+    """A P2WSH 'change' output whose witness script holds the three honest keys plus a fourth one under OP_3."""
+    import re
+    from buidl.psbt import PSBT, PSBTOut, SuspiciousTransaction
+    from buidl.descriptor import P2WSHSortedMulti
+    from buidl.hd import HDPublicKey
+    from buidl.ecc import PrivateKey
+    from buidl.script import WitnessScript, P2WSHScriptPubKey
+    root = os.environ.get("VERIF_REPO", "/repo")
+    src = open(os.path.join(root, "buidl", "test", "test_psbt.py")).read()
+    body = src[src.index("def test_describe_psbt_2of3"):]
+    desc = re.search(r'valid_output_record = "([^"]+)"', body).group(1)
+    b64 = re.search(r'testnet_psbt_b64 = "([^"]+)"', body).group(1)
+    d = P2WSHSortedMulti.parse(desc)
+    hdmap = {k["xfp"]: HDPublicKey.parse(k["xpub_parent"]) for k in d.key_records}
+    psbt = PSBT.parse_base64(b64, network="testnet")
+    idx = [i for i, o in enumerate(psbt.psbt_outs) if o.named_pubs][0]
+    old = psbt.psbt_outs[idx]
+    honest = [c for c in old.witness_script.commands if isinstance(c, bytes)]
+    extra = PrivateKey(0xBADC0DE).point.sec()
+    ws = WitnessScript([0x52] + honest + [extra] + [0x53, 0xAE])
+    tx_out = psbt.tx_obj.tx_outs[idx]
+    tx_out.script_pubkey = P2WSHScriptPubKey(ws.sha256())
+    try:
+        psbt.psbt_outs[idx] = PSBTOut(tx_out, witness_script=ws, named_pubs=old.named_pubs)
+        r = psbt.describe_basic_multisig(hdpubkey_map=hdmap)
+    except (SuspiciousTransaction, ValueError) as e:
+        return False, "script OP_2 A B C X OP_3 CHECKMULTISIG as change: rejected (%s)" % str(e)[:50]
+    o = r["outputs_desc"][idx]
+    return o["is_change"] is True, "script OP_2 A B C X OP_3 CHECKMULTISIG (4 keys) is described with is_change=%s" % o["is_change"]
+
 def K1():
     from buidl.op import op_2rot
     st = [b"1", b"2", b"3", b"4", b"5", b"6"]
